@@ -69,7 +69,7 @@ def render_osu(ab, meta=None):
     tps = []
     for m, v in ab["tempo"]:
         t = ms_of_q(ab, 16 * m)
-        tps.append(f"{float(t)},{repr(60000.0 / v)},4,0,0,50,1,0")
+        tps.append(f"{float(t)},{repr(60000.0 / v)},{ab.get('osu_meter', 4)},0,0,50,1,0")
     L += tps[::-1] if ab.get("tempo_rows_reversed") else tps
     L += ["", "", "[HitObjects]"]
     for c, q0, q1 in ab["notes"]:
